@@ -30,18 +30,33 @@ def post_obligations(ex, opts):
     return []
 
 
+def _uniformity_p(values):
+    """ThresholdQ re-implemented for the witness search (scipy igamc): ten bins, chi-square against s/10, Q(9/2, V/2)"""
+    from scipy.special import gammaincc
+    n = len(values)
+    hist = [0] * 10
+    for q in values:
+        b = min(9, int(q * 10)) if q < 1 else 9
+        for t, edge in enumerate((0.1, 0.2, 0.3, 0.4, 0.5, 0.6, 0.7, 0.8, 0.9)):
+            if q < edge:
+                b = t
+                break
+        else:
+            b = 9
+        hist[b] += 1
+    sk = n / 10.0
+    v = sum((h - sk) ** 2 / sk for h in hist)
+    return float(gammaincc(4.5, v / 2))
+
+
 def fix_record(ex, model, rec):
-    """make a replay record consistent with summaries used symbolically: a summarised ThresholdQ value below / not
-    below 0.0001 is realised natively by an all-zero / evenly spread column of Q-values"""
+    """make a replay record consistent with the summarised ThresholdQ: the model only says on which side of 0.0001 the
+    uniformity P-value of every list passed to ThresholdQ lies; concrete Q-values realising those sides (lists may share
+    Q-values and contain constants on some paths) are found by a small randomised search with the real statistic"""
     tab = getattr(ex, 'tq_table', None)
     if not tab or model is None:
         return rec
-    idx = {}
-    pos = 0
-    for kind, v in ex.inputs:
-        if kind == 'float':
-            idx[v.get_id()] = pos
-        pos += 1
+    import random
     byname = {}
     pos = 0
     for kind, v in ex.inputs:
@@ -52,32 +67,86 @@ def fix_record(ex, model, rec):
     for cells in getattr(ex, 'tq_keep', []):
         key = tuple((c.t.get_id() if isinstance(c, FReal) else ('c', c)) for c in cells)
         cells_of[key] = cells
+    # every list as a sequence of ('var', name) | ('const', value) under the model, with its required side
+    lists = []
     for key, var in tab.items():
         val = model.eval(var, model_completion=True)
         try:
             low = val.as_fraction() < Fraction(1, 10000)
         except Exception:
             low = False
-        n = len(key)
-        cells = cells_of.get(key, [None] * n)
-        for k, cid in enumerate(key):
-            targets = []
-            if cid in idx:
-                targets = [idx[cid]]
-            elif cells[k] is not None and isinstance(cells[k], FReal):
-                # a cell that is a conditional expression over declared Q-values: set every declared value it mentions
-                stack, seen = [cells[k].t], set()
-                while stack:
-                    t = stack.pop()
-                    if t.get_id() in seen:
-                        continue
-                    seen.add(t.get_id())
-                    if z3.is_const(t) and str(t) in byname:
-                        targets.append(byname[str(t)])
-                    elif not z3.is_bv(t):
-                        stack.extend(t.children())
-            for ti in targets:
-                rec['inputs'][ti]['f'] = 0.0 if low else (k + 0.5) / n
+        cells = cells_of.get(key)
+        if cells is None:
+            continue
+        seq = []
+        for c in cells:
+            if isinstance(c, FReal):
+                t = c.t
+                for _ in range(200):
+                    if z3.is_app(t) and t.decl().kind() == z3.Z3_OP_ITE:
+                        t = t.arg(1) if z3.is_true(model.eval(t.arg(0), model_completion=True)) else t.arg(2)
+                    else:
+                        break
+                if z3.is_const(t) and str(t) in byname:
+                    seq.append(('var', str(t)))
+                elif z3.is_rational_value(t) or z3.is_int_value(t):
+                    seq.append(('const', float(t.as_fraction())))
+                else:
+                    v = model.eval(t, model_completion=True)
+                    try:
+                        seq.append(('const', float(v.as_fraction())))
+                    except Exception:
+                        seq.append(('const', 0.0))
+            else:
+                seq.append(('const', float(c) if isinstance(c, (int, float)) else 0.0))
+        lists.append((seq, low))
+    # group lists by shared variables (columns)
+    groups = []
+    for seq, low in lists:
+        vs = {n for k, n in seq if k == 'var'}
+        for g in groups:
+            if g['vars'] & vs:
+                g['vars'] |= vs
+                g['lists'].append((seq, low))
+                break
+        else:
+            groups.append({'vars': set(vs), 'lists': [(seq, low)]})
+    rnd = random.Random(12345)
+    for g in groups:
+        names = sorted(g['vars'])
+        if not names:
+            continue
+
+        def ok(assign):
+            for seq, low in g['lists']:
+                vals = [assign[n] if k == 'var' else n for k, n in seq]
+                p = _uniformity_p(vals)
+                if low != (p < 0.0001):
+                    return False
+            return True
+        n = len(names)
+        cands = [{nm: (i + 0.5) / n for i, nm in enumerate(names)}, {nm: 0.0 for nm in names}]
+        found = None
+        for a in cands:
+            if ok(a):
+                found = a
+                break
+        tries = 0
+        while found is None and tries < 4000:
+            tries += 1
+            # skewed random histograms: concentrate mass in a few bins with varying strength
+            k = rnd.randint(1, 4)
+            hot = [rnd.randint(0, 9) for _ in range(k)]
+            w = rnd.random()
+            a = {}
+            for nm in names:
+                bsel = rnd.choice(hot) if rnd.random() < w else rnd.randint(0, 9)
+                a[nm] = (bsel + 0.5) / 10
+            if ok(a):
+                found = a
+        if found is not None:
+            for nm, v in found.items():
+                rec['inputs'][byname[nm]]['f'] = v
     return rec
 
 
@@ -275,7 +344,7 @@ def sd_makeslice_sym(ex, fr, st, n, c, ins):
         if neg is True:
             raise __import__('core').PathDead()
         st.pc = st.pc + (b_not(neg),)
-    oid = ex.new_obj(st, StreamBlock(-1, n, fresh=False))
+    oid = ex.new_obj(st, StreamBlock(-1, n, fresh=0))
     ex.alloc_epoch[oid] = ex.nobj
     return Slice(oid, (), 0, n, n)
 
@@ -304,6 +373,16 @@ blk_kind = {}
 
 def sd_poker_bytes(ex, fr, st, args, ins):
     data, m = args
+    if isinstance(data, SymChoice):
+        res = None
+        for g, a in reversed(data.alts):
+            r = sd_poker_bytes(ex, fr, st, [a, m], ins)
+            res = r if res is None else (f_ite(g, r[0], res[0]), f_ite(g, r[1], res[1]))
+        return res
+    if data.obj is None:
+        f = _poker_uf(ex)
+        p = f(z3.BitVecVal(0, 64), z3.BitVecVal(0, 64), z3.BitVecVal(0, 64), tobv(m, 64))
+        return (FReal(p), FReal(p))
     blk = st.heap.get(data.obj)
     if not isinstance(blk, StreamBlock):
         raise Unsupported('poker stub: buffer was not filled by ReadFull')
@@ -549,7 +628,10 @@ def wf_readfull_general(ex, fr, st, args, ins):
     else:
         raise Unsupported('io.ReadFull on %r' % (r,))
     pos, reads, failAt, failErr, maxChunk, kind = ex.load(st, sp, styp)[:6]
-    n = buf.len
+    alts = buf.alts if isinstance(buf, SymChoice) else [(True, buf)]
+    n = None
+    for g, a in reversed(alts):
+        n = a.len if n is None else int_ite(g, a.len, n, 64)
     c = _conc(ex)
     if c['lockdepth'] == 0:
         c['reads_unlocked'] += 1
@@ -560,13 +642,25 @@ def wf_readfull_general(ex, fr, st, args, ins):
         rest = int_binop('-', failAt, pos, 64, True)
         rest = int_ite(int_cmp('<', rest, 0, 64, True), 0, rest, 64)
         deliver = int_ite(ok, n, rest, 64)
-    if not (buf.off == 0 and buf.obj is not None):
-        raise Unsupported('ReadFull into a sub-slice')
-    blk = StreamBlock(pos, n)
-    blk.fresh = deliver
-    blk_kind[id(blk)] = kind
-    ex.__dict__.setdefault('blk_keep', []).append(blk)
-    st.heap[buf.obj] = blk
+    for g, a in alts:
+        if a.obj is None and isinstance(a.len, int) and a.len == 0:
+            continue          # nil / empty buffer: nothing to fill
+        if not (a.off == 0 and a.obj is not None):
+            raise Unsupported('ReadFull into a sub-slice')
+        blk = StreamBlock(pos, a.len)
+        blk.fresh = deliver
+        blk_kind[id(blk)] = kind
+        ex.__dict__.setdefault('blk_keep', []).append(blk)
+        if g is True:
+            st.heap[a.obj] = blk
+        else:
+            old_ = st.heap.get(a.obj)
+            if isinstance(old_, StreamBlock):
+                blk_kind[id(old_)] = blk_kind.get(id(old_), kind)
+            m_ = merge_tree(ex.prog, g, blk, old_)
+            blk_kind[id(m_)] = kind
+            ex.blk_keep.append(m_)
+            st.heap[a.obj] = m_
     ex.store(st, Ptr(sp.obj, sp.path + (0,)), int_binop('+', pos, deliver, 64, True))
     # io.ReadFull with an empty buffer returns (0, nil) without calling Read
     isz = int_cmp('==', n, 0, 64, True)
